@@ -343,6 +343,7 @@ def linop_crash_oracle(ctx):
     DT = torch.float64
     calls = [0]
     crash = [None]
+    crash_base = [False]           # raise a BaseException that is not an Exception
 
     class Op(xt.LinearOperator):
         def __init__(self, m):
@@ -353,7 +354,7 @@ def linop_crash_oracle(ctx):
             k = calls[0]
             calls[0] += 1
             if crash[0] is not None and k == crash[0]:
-                raise (Interrupt() if k % 2 == 1 else Boom())
+                raise (Interrupt() if crash_base[0] else Boom())
             return torch.matmul(self.m, x.unsqueeze(-1)).squeeze(-1)
 
         def _getparamnames(self, prefix=""):
@@ -386,14 +387,18 @@ def linop_crash_oracle(ctx):
                 ctx.fail("oracle", "crash:%s:phase%d:baseline-exception" % (name, phase), {"call": name}, repr(e)[:200], "no exception")
                 continue
             n = calls[0]
-            for k in range(min(n, 25)):
+            for k, base in [(k_, b_) for k_ in range(min(n, 25)) for b_ in (False, True)]:
+                crash_base[0] = base
                 try:
                     run(k)
                 except (Exception, Interrupt):
                     pass
-                ctx.count(("crash-linop", name, phase, k), nontrivial=True)
+                finally:
+                    crash_base[0] = False
+                ctx.count(("crash-linop", name, phase, k, base), nontrivial=True)
                 if id(op.m) != ident or op.m is not mat:
-                    ctx.fail("oracle", "crash:%s:phase%d" % (name, phase), {"call": name, "crash_at_mv": k, "of": n},
+                    ctx.fail("oracle", "crash:%s:phase%d" % (name, phase),
+                             {"call": name, "crash_at_mv": k, "of": n, "raised": "BaseException subclass" if base else "Exception subclass"},
                              "operator holds a different tensor object", "same tensor object as before")
                     op.m = mat
                     break
